@@ -90,7 +90,8 @@ LEMMAS = {
                   'sum gamma log a <= sum gamma log a\'  =>  sum_n log sum_k a <= sum_n log sum_k a\'; '
                   'pi = c / sum c maximises sum_k c_k log pi_k on the simplex   (all K, N)',
         assumptions=['each component update does not decrease its part of the expected complete-data log-likelihood: machine checked for the Gaussian '
-                     'components (lean/GaussMStep.lean); cACG (Tyler MM step) and Watson (concentration equation) fixed-point steps: cited, not machine checked']),
+                     'components (lean/GaussMStep.lean) and for the cACG Tyler / MM step (lean/CacgMM.lean: cacg_mm_step); the Watson concentration '
+                     'equation (convexity of log 1F1, spline inverse) is cited, not machine checked']),
     'oracle': dict(
         file='lean/Oracle.lean', theorems=['perm_max_exists', 'euclidean_restores', 'multiply_restores', 'cos_restores', 'unique_maximiser'],
         statement='estimate rows e_k = r_{pi k} (a permutation of the reference rows), score S[k, j] = sim(r_k, e_j), sigma ANY maximiser of '
@@ -135,6 +136,16 @@ LEMMAS = {
                   'the normalised PSD is invariant to rescaling the mask; the ideal complex mask times the mixture reproduces each source and sums '
                   'to one; the SI-SDR projection coefficient is optimal and the ratio is invariant to rescaling estimate or reference; scaling the '
                   'signal power by c^2 changes the SNR by 20 log10 |c|'),
+    'cacgmm': dict(
+        file='lean/CacgMM.lean', theorems=['quadratic_minimiser', 'wmwf_cost_expand', 'wmwf_minimiser', 'rank_one_posSemidef', 'rank_one_isHermitian',
+                                           'rank_one_trace', 'cacg_scale_invariant', 'complex_logdet_le_trace', 'complex_logdet_mul_le_trace',
+                                           'cacg_mm_step'],
+        statement='for every D and N: M w0 = b with M PSD minimises w^H M w - 2 Re w^H b, hence (Phi_xx + mu Phi_nn) w0 = Phi_xx u minimises the '
+                  'weighted multichannel Wiener cost; a a^H is Hermitian PSD and (t / a^H a) a a^H has trace t; the cACG log-density does not depend '
+                  'on the scale of B; log det A <= tr A - D for Hermitian positive definite A; the Tyler / MM update '
+                  'B1 = (D / G) sum_n gamma_n z_n z_n^H / (z_n^H B0^-1 z_n) does not decrease sum_n gamma_n (-D log z_n^H B^-1 z_n - log det B)',
+        assumptions=['cACG M-step: the eigenvalue floor of the stored decomposition is not part of the Lean statement (B1 positive definite is a hypothesis); '
+                     'the normalisation of the eigenvalues is covered by cacg_scale_invariant']),
     'logdet': dict(
         file='lean/LogDet.lean', theorems=['det_cholesky', 'log_det_cholesky'],
         statement='L lower triangular with positive diagonal  =>  log det(L L^T) = 2 sum_i log L_ii   (all dimensions)'),
